@@ -10,7 +10,7 @@ use crate::refmodel::graph;
 use crate::util::{PanicInfo, Rng, Stats, Tier, guarded};
 use crate::{Mode, Prop};
 use fidget_core::context::Node;
-use fidget_core::eval::{BulkEvaluator, Function, TracingEvaluator};
+use fidget_core::eval::{BulkEvaluator, TracingEvaluator};
 use fidget_core::shape::{Shape, ShapeVars};
 use fidget_core::types::{Grad, Interval};
 use fidget_core::var::Var;
@@ -317,6 +317,55 @@ fn check_arg_errors<F: Backend>(b: &prog::Built, roots: &[Node], rng: &mut Rng, 
     Ok(())
 }
 
+/// Long-lived evaluators: one bulk evaluator of each kind is handed a
+/// sequence of tapes with different variable counts on different numbers of
+/// points (a well-formed use of the documented API: evaluators are scratch
+/// space that may be reused across tapes).  Every call must return normally.
+fn check_reuse<F: Backend>(b: &prog::Built, roots: &[Node], rng: &mut Rng, st: &mut Stats) -> Result<(), Viol> {
+    let name = F::NAME;
+    let mut cx = fidget_core::Context::new();
+    let x = cx.x();
+    let y = cx.y();
+    let xy = cx.add(x, y).unwrap();
+    let k = cx.constant(1.5);
+    let small: Vec<Shape<F>> = [x, xy, k].iter().map(|n| Shape::<F>::new(&cx, *n).unwrap()).collect();
+    let big = Shape::<F>::new(&b.ctx, roots[0]).unwrap();
+    let mut vars: ShapeVars<f32> = ShapeVars::new();
+    for v in b.vars.iter() {
+        if let Var::V(i) = v {
+            vars.insert(*i, rng.uniform(-2.0, 2.0) as f32);
+        }
+    }
+    let mut fe = Shape::<F>::new_float_slice_eval();
+    let mut ge = Shape::<F>::new_grad_slice_eval();
+    let steps = 3 + rng.below(4);
+    for step in 0..steps {
+        let which = rng.below(4);
+        let s = if which == 3 { &big } else { &small[which] };
+        let n = *rng.pick(&[1usize, 2, 3, 7, 8, 9, 16, 17, 33]);
+        let xs: Vec<f32> = (0..n).map(|_| rng.uniform(-3.0, 3.0) as f32).collect();
+        child::note(&format!("C11 {name} reused shape bulk evaluators, step {step} | shape {which} on {n} points"));
+        let ft = s.float_slice_tape(Default::default());
+        match guarded(|| fe.eval_with_vars(&ft, &xs, &xs, &xs, &vars).map(|o| o.len())) {
+            Ok(Ok(l)) if l == n => st.inc("reuse_float_calls"),
+            Ok(Ok(l)) => return Err(Viol { sig: format!("reuse:{name}:float:length"), msg: format!("reused float-slice evaluator returned {l} values for {n} points"), detail: json!({"step": step}) }),
+            Ok(Err(e)) => return Err(Viol { sig: format!("spurious_error:{name}:reuse_float"), msg: format!("step {step} (shape {which}, {n} points): {e}"), detail: json!(null) }),
+            Err(pi) => return Err(panic_viol("reuse_float", name, &pi, String::new(), json!({"step": step, "shape": which, "points": n}))),
+        }
+        let gt = s.grad_slice_tape(Default::default());
+        let gx: Vec<Grad> = xs.iter().map(|v| Grad::new(*v, 1.0, 0.0, 0.0)).collect();
+        let gy: Vec<Grad> = xs.iter().map(|v| Grad::new(*v, 0.0, 1.0, 0.0)).collect();
+        let gz: Vec<Grad> = xs.iter().map(|v| Grad::new(*v, 0.0, 0.0, 1.0)).collect();
+        match guarded(|| ge.eval_with_vars(&gt, &gx, &gy, &gz, &vars).map(|o| o.len())) {
+            Ok(Ok(l)) if l == n => st.inc("reuse_grad_calls"),
+            Ok(Ok(l)) => return Err(Viol { sig: format!("reuse:{name}:grad:length"), msg: format!("reused grad-slice evaluator returned {l} values for {n} points"), detail: json!({"step": step}) }),
+            Ok(Err(e)) => return Err(Viol { sig: format!("spurious_error:{name}:reuse_grad"), msg: format!("step {step} (shape {which}, {n} points): {e}"), detail: json!(null) }),
+            Err(pi) => return Err(panic_viol("reuse_grad", name, &pi, String::new(), json!({"step": step, "shape": which, "points": n}))),
+        }
+    }
+    Ok(())
+}
+
 fn check_prog(p: &Prog, seed: u64, st: &mut Stats) -> Option<Viol> {
     let mut rng = Rng::new(seed);
     let rng = &mut rng;
@@ -347,6 +396,12 @@ fn check_prog(p: &Prog, seed: u64, st: &mut Stats) -> Option<Viol> {
         return Some(v);
     }
     if let Err(v) = check_arg_errors::<JitFunction>(&b, &roots, rng, st) {
+        return Some(v);
+    }
+    if let Err(v) = check_reuse::<VmFunction>(&b, &roots, rng, st) {
+        return Some(v);
+    }
+    if let Err(v) = check_reuse::<JitFunction>(&b, &roots, rng, st) {
         return Some(v);
     }
     None
